@@ -8,9 +8,13 @@ export GOFLAGS=-mod=mod GOPROXY=off GOSUMDB=off GOTOOLCHAIN=local
 export GOVC_EVIDENCE_DIR=$(mktemp -d /var/tmp/harmless-ev.XXXXXX)
 trap 'rm -rf $GOVC_EVIDENCE_DIR' EXIT
 fail=0
+# obligations listed as open findings fail on the unchanged tree too: not an alarm of the refactoring
+known=$(python3 -c "
+import json
+print('|'.join(sorted(set(e['obligation'].split('#')[-1] for e in json.load(open('/verif/known_findings.json'))['open']))))")
 for d in selftest/harmless/*/; do
   name=$(basename $d); [ -n "$1" ] && [[ "$name" != *"$1"* ]] && continue
-  out=$(./selftest/patchrun.sh $d/patch.diff -- verify "keeper::" "types::" "module::" 2>&1 | grep -v "^\s\s\s\s\s" | grep -v "honours-the\|at-its-default\|TRUSTED")
+  out=$(./selftest/patchrun.sh $d/patch.diff -- verify "keeper::" "types::" "module::" 2>&1 | grep -v "^\s\s\s\s\s" | grep -v "TRUSTED" | grep -Ev "#($known)@")
   nf=$(echo "$out" | grep -c "^   \(timeout\|unknown\|sat\)")
   und=$(echo "$out" | grep -c "^UNDECIDED")
   brk=$(echo "$out" | grep -c "BROKEN\|load error\|VACUOUS")
